@@ -111,6 +111,7 @@ def func_params(path, func):
 
 
 def parse_call(msg, names=()):
+    msg = re.sub(r' with crosshair\.patch_to_return\(.*?\)(?= \(which|$)', '', msg, flags=re.S)
     m = CALL.search(msg)
     if not m:
         return None
